@@ -7,6 +7,8 @@ package main
 import (
 	"bytes"
 	"fmt"
+	"os"
+	"path/filepath"
 	"regexp"
 	"strings"
 	"time"
@@ -328,6 +330,58 @@ func tcolor() {
 	w.Sample(map[string]interface{}{"tcolor": "xterm (8 colours) fg=9 bg=-1", "expect": "selects palette entry 1, background untouched"})
 }
 
+// shippedPad: "only when the terminal description has a pad character" - for the built-in
+// terminals the description is the source file: the entry a lookup returns sleeps on a
+// padding specification exactly when its source declares a PadChar.
+func shippedPad() {
+	if *hc.Shard != 0 {
+		return
+	}
+	dir := os.Getenv("VERIF_REPO_DIR")
+	if dir == "" {
+		dir = "/repo"
+	}
+	files, _ := filepath.Glob(filepath.Join(dir, "terminfo", "*", "*", "term.go"))
+	entryRe := regexp.MustCompile(`(?s)&terminfo\.Terminfo\{(.*?)\n\t\}\)`)
+	nameRe := regexp.MustCompile(`(?m)^\s*Name:\s*"([^"]+)"`)
+	padRe := regexp.MustCompile(`(?m)^\s*PadChar:\s*"([^"]*)"`)
+	n := 0
+	for _, f := range files {
+		src, err := os.ReadFile(f)
+		if err != nil {
+			continue
+		}
+		for _, em := range entryRe.FindAllSubmatch(src, -1) {
+			nm := nameRe.FindSubmatch(em[1])
+			if nm == nil {
+				continue
+			}
+			name := string(nm[1])
+			declared := false
+			if pm := padRe.FindSubmatch(em[1]); pm != nil && len(pm[1]) > 0 {
+				declared = true
+			}
+			ti, err := terminfo.LookupTerminfo(name)
+			if err != nil {
+				continue // C14 reports unresolved names
+			}
+			n++
+			w.R.Evaluations++
+			var out bytes.Buffer
+			vtime.ResetSleep()
+			ti.TPuts(&out, "a$<20>b")
+			got, _ := vtime.Slept()
+			if (got != 0) != declared || out.String() != "ab" {
+				w.Violation("tputs-sleep-shipped", fmt.Sprintf("%s: TPuts(\"a$<20>b\") on the built-in entry wrote %q and slept %v; its source declares a pad character: %v", name, out.String(), got, declared), map[string]string{"name": name})
+			}
+		}
+	}
+	w.R.Scenarios["shipped_entries_pad_checked"] = n
+	if n < 30 {
+		w.Violation("shipped-scan", fmt.Sprintf("only %d entries found under %s/terminfo: the source scan is broken", n, dir), nil)
+	}
+}
+
 func main() {
 	w = hc.Start("C15")
 	w.R.Rule = "TPuts: every string up to length 7 (thorough 8) over {$ < > . 1 5 * / a} x {no pad character, NUL pad character}, output compared with the set of outputs the statement allows (well-formed $<n[.m][*][/]> removed, unterminated verbatim, ill-formed-but-terminated either way) and the virtual clock's recorded sleep with the sum of the specifications; TGoto: every database entry x (col,row) in 0..300^2 against the entry's addressing convention (ANSI CUP, ESC Y / ESC = offset-32 up to 223, HP ESC &a); TColor: every colour entry x (fg,bg) in -1..300^2 decoded by the reference terminal's SGR interpreter. distinct_nontrivial = TPuts strings containing $< + positions + colour pairs selecting at least one colour"
@@ -338,6 +392,7 @@ func main() {
 	}
 	_ = delayOf
 	tputs()
+	shippedPad()
 	tgoto()
 	tcolor()
 	w.Finish()
